@@ -1,0 +1,14 @@
+//! Verification hooks (cargo feature `verif`, off by default).
+//!
+//! Read-only accessors and thin wrappers that expose crate-private state to the
+//! correspondence harness of /verif. Nothing in here is used by numbat itself and
+//! nothing in here changes behaviour.
+
+pub mod fmt;
+pub mod misc;
+pub mod prefix;
+pub mod qty;
+pub mod session;
+pub mod syntax;
+pub mod types;
+pub mod vm;
